@@ -23,7 +23,7 @@ CALL2PRIM = {"Int8": "i8", "Int16": "i16", "Int32": "i32", "Int64": "i64", "UInt
              "Double": "f64", "Boolean": "bool", "Position": "pos"}
 CTYPE_W = {"int8_t": 1, "int16_t": 2, "int32_t": 4, "int64_t": 8, "uint8_t": 1, "uint16_t": 2, "uint32_t": 4,
            "uint64_t": 8, "char": 1, "size_t": 8, "float": 4, "double": 8, "bool": 1}
-FLAGS = ["checkAfterRead", "versionOr", "indexChecked", "lengthChecked"]
+FLAGS = ["checkAfterRead", "versionOr", "indexChecked", "lengthChecked", "valueStrFresh"]
 
 
 # --------------------------------------------------------------------------------------------
@@ -102,7 +102,23 @@ def extract(repo=None):
     cr = func_body(src, r"Archiver\s+Archiver::CreateRead\s*\([^)]*\)") or ""
     flags["lengthChecked"] = bool(re.search(r"length\s*>\s*arc\.GetRemainingSize\(\)", sb)) and \
         bool(re.search(r"numClasses\s*>\s*arc\.GetRemainingSize\(\)\s*/\s*8", cr))
-    return {"tagNames": names, "version": version, "nullPointer": nullp,
+    # ScriptVariable::ArchiveInternal, String kind: how the string object of a loaded value is created
+    svsrc = strip_cpp_comments(open(os.path.join(repo, "src", "Script", "ScriptVariable.cpp")).read())
+    ab = func_body(svsrc, r"void\s+ScriptVariable::ArchiveInternal\s*\([^)]*\)")
+    if ab is None:
+        raise CheckError("translator: ScriptVariable::ArchiveInternal not recognised")
+    m = re.search(r"m_data\.stringValue\s*=\s*new\s+str\s*(\(([^)]*)\))?\s*;", ab)
+    if not m:
+        raise CheckError("translator: creation of the loaded string value not recognised")
+    flags["valueStrFresh"] = (m.group(2) or "").strip() == ""
+    m = re.search(r"enum\s+class\s+variableType_e\s*\{(.*?)\}", strip_cpp_comments(
+        open(os.path.join(repo, "include", "morfuse", "Script", "ScriptVariable.h")).read()), re.S)
+    if not m:
+        raise CheckError("translator: enum variableType_e not found")
+    vnames = [x.strip() for x in m.group(1).split(",") if x.strip()]
+    if any("=" in n for n in vnames) or vnames[-1] != "Max":
+        raise CheckError("translator: variableType_e has explicit values / no Max sentinel")
+    return {"varTypeNames": vnames[:-1], "tagNames": names, "version": version, "nullPointer": nullp,
             "primTable": [(p, prim[p][0], prim[p][1]) for p in PRIMS], "flags": flags}
 
 
@@ -125,11 +141,16 @@ def gen_text(d):
         "def indexChecked : Bool := %s\n"
         "/-- lengths / counts read from the archive are compared with what the stream still holds before allocating -/\n"
         "def lengthChecked : Bool := %s\n"
+        "/-- the string of a loaded String value starts empty (`new str`), not as the text of a number (`new str(4)`) -/\n"
+        "def valueStrFresh : Bool := %s\n"
+        "/-- `enum class variableType_e` in declaration order -/\n"
+        "def varTypeNames : List String := [%s]\n"
         "end Morfuse.Gen.Archive\n" % (
             ", ".join('"%s"' % n for n in d["tagNames"]), d["version"], d["nullPointer"],
             ", ".join('("%s", "%s", %d)' % t for t in d["primTable"]),
             b(d["flags"]["checkAfterRead"]), b(d["flags"]["versionOr"]), b(d["flags"]["indexChecked"]),
-            b(d["flags"]["lengthChecked"])))
+            b(d["flags"]["lengthChecked"]), b(d["flags"]["valueStrFresh"]),
+            ", ".join('"%s"' % n for n in d["varTypeNames"])))
 
 
 def translate(ctx):
@@ -140,11 +161,89 @@ def translate(ctx):
     return d
 
 
+def cfg_obligations(ctx, flags, need, notes):
+    """the theorems of a Props file are stated for a reader configuration; the reader in the tree must be the
+    one they need.  Checked by Lean on the regenerated Gen/ArchiveTable.lean."""
+    path = os.path.join(ctx.tmp, "Cfg.lean")
+    names = list(need)
+    with open(path, "w") as f:
+        f.write("import MorfuseModel.Archive.Model\n")
+        for n in names:
+            f.write("example : Morfuse.Gen.Archive.%s = true := by decide\n" % n)
+    with common.LakeLock():
+        p = common.sh(["lake", "env", "lean", path], cwd=LEAN, timeout=600)
+    out = p.stdout + p.stderr
+    allok = True
+    for i, n in enumerate(names):
+        bad = ("Cfg.lean:%d:" % (i + 2)) in out
+        if bad != (not flags[n]):
+            raise CheckError("translator and Lean disagree on switch " + n + ":\n" + out[-1500:])
+        ctx.oblige("reader switch %s: %s" % (n, need[n]), not bad,
+                   "the code in $VERIF_REPO does not do this; see " + notes, reported=True)
+        allok = allok and not bad
+    return allok
+
+
 # --------------------------------------------------------------------------------------------
 # items:  ('p', prim, v) ('r', bytes) ('s', bytes) ('op', l) ('sp', l) ('pos', l) ('obj', l, cls, [items])
 
 def hx(b):
     return b.hex() if b else "-"
+
+
+# values: ('n',) ('i', n) ('f', n) ('c', n) ('s', bytes) ('k0',) ('k', bytes) ('vec', bytes12) ('l', lbl)
+#         ('ca', holder, refcount, [(self, value)...]) ('car', holder);   item ('v', self, value)
+
+def vtoks(v, selfs=True):
+    k = v[0]
+    if k in ("n", "k0"):
+        return [k]
+    if k in ("i", "f", "c", "l", "car"):
+        return [k, str(v[1])]
+    if k in ("s", "k", "vec"):
+        return [k, hx(v[1])]
+    if k == "ca":
+        out = ["ca", str(v[1]), str(v[2]), str(len(v[3]))]
+        for s_, e in v[3]:
+            out += ([str(s_)] if selfs else []) + vtoks(e, selfs)
+        return out
+    raise ValueError(k)
+
+
+def parse_value(t, i, selfs):
+    k = t[i]
+    if k in ("n", "k0"):
+        return (k,), i + 1
+    if k in ("i", "f", "c", "l", "car"):
+        return (k, int(t[i + 1])), i + 2
+    if k in ("s", "k", "vec"):
+        return (k, b"" if t[i + 1] == "-" else bytes.fromhex(t[i + 1])), i + 2
+    if k == "ca":
+        n = int(t[i + 3])
+        j = i + 4
+        es = []
+        for _ in range(n):
+            s_ = 0
+            if selfs:
+                s_ = int(t[j])
+                j += 1
+            e, j = parse_value(t, j, selfs)
+            es.append((s_, e))
+        return ("ca", int(t[i + 1]), int(t[i + 2]), es), j
+    raise ValueError("bad value token " + k)
+
+
+def strip_selfs(x):
+    """forget the addresses of element variables (read-backs do not print them)"""
+    if isinstance(x, list):
+        return [strip_selfs(y) for y in x]
+    if x[0] == "v":
+        return ("v", x[1], strip_selfs(x[2]))
+    if x[0] == "ca":
+        return ("ca", x[1], x[2], [(0, strip_selfs(e)) for _, e in x[3]])
+    if x[0] == "obj":
+        return ("obj", x[1], x[2], strip_selfs(x[3]))
+    return x
 
 
 def toks(items):
@@ -159,13 +258,18 @@ def toks(items):
             out += [k, str(it[1])]
         elif k == "obj":
             out += ["obj", str(it[1]), hx(it[2]), str(len(it[3]))] + toks(it[3])
+        elif k == "v":
+            out += ["v", str(it[1])] + vtoks(it[2])
     return out
 
 
-def parse_items(t):
-    """inverse of toks (used to read the read-back of either side)"""
+def parse_items(t, selfs=True):
+    """inverse of toks (selfs=False: the read-back of either side, which omits element addresses)"""
     def one(i):
         k = t[i]
+        if k == "v":
+            v, j = parse_value(t, i + 2, selfs)
+            return ("v", int(t[i + 1]), v), j
         if k == "p":
             return ("p", t[i + 1], int(t[i + 2])), i + 3
         if k in ("r", "s"):
@@ -202,6 +306,14 @@ def registered(items, acc=None):
     return acc
 
 
+def vtargets(v, acc):
+    if v[0] == "l" and v[1]:
+        acc.add(v[1])
+    elif v[0] == "ca":
+        for _, e in v[3]:
+            vtargets(e, acc)
+
+
 def targets(items, acc=None):
     acc = set() if acc is None else acc
     for it in items:
@@ -209,6 +321,8 @@ def targets(items, acc=None):
             acc.add(it[1])
         elif it[0] == "obj":
             targets(it[3], acc)
+        elif it[0] == "v":
+            vtargets(it[2], acc)
     return acc
 
 
@@ -259,9 +373,68 @@ def gen_bytes(rng, maxlen):
 
 
 CLASSES = [b"Listener", b"VNode", b"VNodf"]
+TEXT = b"abcdefghijklmnopqrstuvwxyzABCDEFGHIJKLMNOPQRSTUVWXYZ0123456789_"
 
 
-def gen_case(rng, nitems, nobj=None, maxstr=300, dangling=0.04):
+class VGen:
+    """script values: every variable and holder gets its own address label; a holder may be shared by
+    later variables (`car`); reference counts are filled in once the whole sequence is known"""
+
+    def __init__(self, rng, ptr_targets):
+        self.rng = rng
+        self.next = 100000
+        self.holders = []
+        self.refs = {}
+        self.ptr_targets = ptr_targets
+
+    def fresh(self):
+        self.next += 1
+        return self.next
+
+    def value(self, depth=0):
+        rng = self.rng
+        r = rng.random()
+        if r < 0.08:
+            return ["n"]
+        if r < 0.22:
+            return ["i", rng.choice(BOUND[8]) if rng.random() < 0.5 else rng.getrandbits(64)]
+        if r < 0.32:
+            return ["f", rng.choice(F32) if rng.random() < 0.6 else rng.getrandbits(32)]
+        if r < 0.38:
+            return ["c", rng.choice(BOUND[1]) if rng.random() < 0.5 else rng.getrandbits(8)]
+        if r < 0.52:
+            return ["s", gen_bytes(rng, 40)]
+        if r < 0.56:
+            return ["k0"]
+        if r < 0.64:
+            return ["k", bytes(rng.choice(TEXT) for _ in range(rng.randint(1, 12)))]
+        if r < 0.70:
+            return ["vec", bytes(rng.getrandbits(8) for _ in range(12))]
+        if r < 0.80:
+            t = self.ptr_targets()
+            return ["l", t]
+        if r < 0.88 and self.holders:
+            h = rng.choice(self.holders)
+            self.refs[h] = self.refs.get(h, 0) + 1
+            return ["car", h]
+        if depth < 3:
+            h = self.fresh()
+            n = rng.choice([0, 1, 2, 3, 5])
+            es = []
+            v = ["ca", h, None, es]
+            for _ in range(n):
+                es.append((self.fresh(), self.value(depth + 1)))
+            self.holders.append(h)      # shareable only once completely archived (pre-order: after its elements)
+            return v
+        return ["i", 7]
+
+    def freeze(self, v):
+        if v[0] == "ca":
+            return ("ca", v[1], self.refs.get(v[1], 0), [(s_, self.freeze(e)) for s_, e in v[3]])
+        return tuple(v)
+
+
+def gen_case(rng, nitems, nobj=None, maxstr=300, dangling=0.04, values=0.2):
     """a typed write sequence over primitives, strings, raw blocks and an object graph of `nobj`
     listeners whose plain / safe pointers are written before and after (and inside) their targets"""
     nobj = rng.randint(0, 30) if nobj is None else nobj
@@ -284,8 +457,12 @@ def gen_case(rng, nitems, nobj=None, maxstr=300, dangling=0.04):
             tgt = rng.choice(labels + extra)
         return ("sp" if rng.random() < 0.5 else "op", tgt)
 
-    def plain_item():
+    vg = VGen(rng, lambda: ptr()[1])
+
+    def plain_item(top=False):
         r = rng.random()
+        if top and r < values:      # the model has script values at the top level of a sequence only
+            return ["v", vg.fresh(), vg.value()]
         if r < 0.45:
             return gen_prim(rng)
         if r < 0.6:
@@ -321,12 +498,23 @@ def gen_case(rng, nitems, nobj=None, maxstr=300, dangling=0.04):
         elif pend_extra and r < 0.3:
             items.append(("pos", pend_extra.pop()))
         else:
-            items.append(plain_item())
+            items.append(plain_item(True))
     while pending:
         items.append(obj(pending.pop(), 0))
     while pend_extra:
         items.append(("pos", pend_extra.pop()))
-    return items
+
+    def freeze(its):
+        out = []
+        for it in its:
+            if it[0] == "v":
+                out.append(("v", it[1], vg.freeze(it[2])))
+            elif it[0] == "obj":
+                out.append(("obj", it[1], it[2], freeze(it[3])))
+            else:
+                out.append(it)
+        return out
+    return freeze(items)
 
 
 def gen_info(rng):
@@ -365,7 +553,48 @@ def run_model(lines):
 
 
 class ADiff(common.Diff):
-    """Diff whose answer histogram keys on the outcome (the archive bytes are not a kind)"""
+    """Diff whose answer histogram keys on the outcome (the archive bytes are not a kind) and whose line
+    monitor sees the input line next to the implementation's answer (prop.monitor(line, out))"""
+
+    def __init__(self, *a, **k):
+        super().__init__(*a, **k)
+        self._cur, self._i = [], 0
+        if hasattr(self.prop, "monitor"):
+            self.line_monitor = self._mon
+
+    def both(self, lines):
+        r = super().both(lines)
+        self._cur, self._i = lines, 0
+        return r
+
+    def report(self, name, case):
+        """shrink the write sequence itself (delta debugging over the top-level calls, same failure signature)"""
+        if len(case) == 2 and case[1].startswith("arc "):
+            t = case[1].split(" ")
+            head, items = t[:4], parse_items(t[4:])
+            impl0, crash0, _, model0 = self.both(case)
+            sig0 = crash0 if crash0 else self.prop.classify(case, impl0, crash0, model0)[2]
+
+            def fails(sub):
+                lines = [case[0], " ".join(head + toks(sub))]
+                impl, crash, info, model = self.both(lines)
+                if crash is None and common.first_diff(impl, model) is None and not any(
+                        self.prop.monitor(l, o) for l, o in zip(lines, impl)):
+                    return False
+                return (crash if crash else self.prop.classify(lines, impl, crash, model)[2]) == sig0
+            if len(items) > 1:
+                saved, self.base_timeout = self.base_timeout, 10
+                try:
+                    items = common.ddmin(items, fails, max_tests=80)
+                finally:
+                    self.base_timeout = saved
+            case = [case[0], " ".join(head + toks(items))]
+        return super().report(name, case)
+
+    def _mon(self, out):
+        i = self._i
+        self._i += 1
+        return i < len(self._cur) and self.prop.monitor(self._cur[i], out) is not None
 
     def account(self, case, model_out):
         import hashlib
